@@ -10,7 +10,8 @@ class TreeNode(object):
 
     def __init__(self, grid_size: tuple[int, int], log_prior: float, node_id: Union[str | int]):
         self.log_p = np.full(grid_size, log_prior, order="C")
-        self.log_r = np.zeros(grid_size, order="C")
+        # A node without data and without children has log_r equal to log_p (what update() computes for it)
+        self.log_r = np.full(grid_size, log_prior, order="C")
         self.node_id = node_id
         self.data_points = set()
 
